@@ -201,6 +201,8 @@ def run(ctx):
                     if v:
                         where = "near-boundary" if any(abs(p - b) <= 49 for b in boundaries) else "inside-chunk"
                         ctx.violation(dict(klass, predicate=v[0], edit=kind_e, where=where), "%s %s edit %s at byte %d: %s" % (kind, cname, kind_e, p, v[1]), case)
+    if not ctx.expired():
+        hit_window_sweep(ctx)
     if thorough and not ctx.expired():
         big_default(ctx)
     ctx.sample({"content": "text/40000", "config": "none max=9000", "ops": "w8191,w3,W", "expect": "file identical to the one written with a single call"})
@@ -219,6 +221,77 @@ def edit_batch(arg):
         ok = c.done and w is not None and w.get("close") == "1" and w.get("fail") == "0"
         out.append((w["file"] if ok else None, c.first("M") if ok else None, c.status() if not ok else None))
     return out
+
+
+def hit_windows(ctx, want=3):
+    """48-byte windows at which the library itself ended a chunk because of the rolling hash (not because of the maximum):
+    the hash is a function of the window alone, so placing such a window anywhere reproduces the hit there"""
+    content = gen("rand", 300000, ctx.seed)
+    (f0, m0, s0), = write_batch(("cfg comp=0 manual=0", content, ["W"], True))
+    if f0 is None:
+        return []
+    rows, offs = chunk_table(m0)
+    out = []
+    for (d, cl, ul), o in list(zip(rows, offs))[:-1]:
+        # the writer hashes byte i and, on a hit, ends the chunk in front of it: the hitting window is the last 47 bytes of
+        # the chunk plus the first byte of the next one
+        if ul < AVG * 4 and o + ul >= 47:
+            out.append(content[o + ul - 47:o + ul + 1])
+    return out[:want]
+
+
+def sweep_content(w, e, tail=20000):
+    return bytes(e - 47) + w + bytes(tail)        # the window's last byte is byte e: a chunk of e bytes would end there
+
+
+def sweep_batch(arg):
+    cline, w, ends = arg
+    job = [cline, "read -", "meta 1", "timeout 60000", "chunk 8"]
+    for e in ends:
+        job += ["content %s" % sweep_content(w, e).hex(), "hist W"]
+    cs = core.drv("writehist", "\n".join(job) + "\n", timeout=3000)
+    out = []
+    for c in cs:
+        wr = c.first("W")
+        ok = c.done and wr is not None and wr.get("close") == "1" and wr.get("fail") == "0"
+        out.append((c.first("M") if ok else None, c.status() if not ok else None))
+    return out
+
+
+def hit_window_sweep(ctx):
+    """a rolling-hash hit placed at every offset around the effective minimum and maximum: every automatic chunk but the
+    last must still respect both"""
+    ws = hit_windows(ctx)
+    ctx.extra["hit_windows"] = len(ws)
+    cfgs = [("none default", "cfg comp=0 manual=0", 1, 10485760), ("none min=9000 max=20000", "cfg comp=0 manual=0 max=20000 min=9000", 9000, 20000),
+            ("none max=12000", "cfg comp=0 manual=0 max=12000", 1, 12000)]
+    honoured = 0
+    for wi, w in enumerate(ws):
+        for cname, cline, cmin, cmax in cfgs:
+            effmax = min(AVG * 4, cmax)
+            effmin = min(max(AVG // 4, cmin), effmax)
+            ends = list(range(effmin - 50, effmin + 51))
+            if effmax < 40000:
+                ends += list(range(effmax - 50, effmax + 51))
+            jobs = [(cline, w, ch) for ch in core.chunks(ends, 26)]
+            for part, ch in zip(core.pmap(sweep_batch, jobs), core.chunks(ends, 26)):
+                for e, (m, st) in zip(ch, part):
+                    ctx.states += 1; ctx.evaluations += 1; ctx.transitions += 1
+                    case = {"sweep": True, "w": w.hex(), "end": e, "cline": cline, "bounds": [cmin, cmax], "kind": "rand", "n": 0}
+                    klass = {"check": "C16", "content": "hit-window", "comp": "none"}
+                    if m is None:
+                        ctx.violation(dict(klass, predicate="baseline-write-fails"), "hit window %d ending at %d, %s: %s" % (wi, e, cname, st), case)
+                        continue
+                    rows, offs = chunk_table(m)
+                    if rows and rows[0][2] == e:
+                        honoured += 1
+                        ctx.nontrivial += 1
+                    v = bounds_ok(rows, cmin, cmax)
+                    if v:
+                        ctx.violation(dict(klass, predicate=v[0], where="minimum" if abs(e - effmin) <= 50 else "maximum"),
+                                      "rolling-hash hit placed at offset %d (%s): %s" % (e, cname, v[1]), case)
+    ctx.extra["hit_window_positions_where_the_first_chunk_ended_at_the_hit"] = honoured
+    ctx.bounds["hit_window_sweep"] = "windows taken from the library's own chunk ends, placed to end at every offset within 50 bytes of the effective minimum / maximum"
 
 
 def big_default(ctx):
@@ -254,6 +327,12 @@ def big_default(ctx):
 def replay(case, quiet=True):
     import os
     seed = int(os.environ.get("VERIF_SEED", "0") or 0)
+    if case.get("sweep"):
+        (m, st), = sweep_batch((case["cline"], bytes.fromhex(case["w"]), [case["end"]]))
+        if m is None:
+            return {"violated": True, "detail": str(st)}
+        v = bounds_ok(chunk_table(m)[0], *case["bounds"])
+        return {"violated": bool(v), "detail": v}
     content = gen(case["kind"], case["n"], seed)
     cline = case["cline"]
     (f0, m0, s0), = write_batch((cline, content, ["W"], True))
